@@ -126,6 +126,10 @@ SINKS.update({
     'rst-link-target':  ('restructuredtext', lambda P: f'def f():\n    r\'\'\'Doc `k <http://x/{esc_sp(P)}>`_ end.\'\'\'\n', False),
     'rst-target-def':   ('restructuredtext', lambda P: f'def f():\n    r\'\'\'Doc k_ end.\n\n    .. _k: http://x/{esc_sp(P)}\n    \'\'\'\n', False),
     'rst-image-alt':    ('restructuredtext', lambda P: f'def f():\n    r\'\'\'Doc.\n\n    .. image:: http://x/i.png\n       :alt: {P}\n    \'\'\'\n', False),
+    # images docutils embeds as <object> (svg, swf, ...): the alternative text becomes the CONTENT of the element
+    'rst-image-alt-svg': ('restructuredtext', lambda P: f'def f():\n    r\'\'\'Doc.\n\n    .. image:: http://x/i.svg\n       :alt: {P}\n    \'\'\'\n', False),
+    'rst-figure-alt-swf': ('restructuredtext', lambda P: f'def f():\n    r\'\'\'Doc.\n\n    .. figure:: http://x/i.swf\n       :alt: {P}\n\n       caption\n    \'\'\'\n', False),
+    'google-image-alt-svg': ('google', lambda P: f'def f(a):\n    r\'\'\'Doc.\n\n    Note:\n        .. image:: http://x/i.svg\n           :alt: {P}\n    \'\'\'\n', False),
     'rst-image-uri':    ('restructuredtext', lambda P: f'def f():\n    r\'\'\'Doc.\n\n    .. image:: http://x/{esc_sp(P)}\n    \'\'\'\n', False),
     'rst-image-target': ('restructuredtext', lambda P: f'def f():\n    r\'\'\'Doc.\n\n    .. image:: http://x/i.png\n       :target: http://x/{esc_sp(P)}\n       :width: 10\n    \'\'\'\n', False),
     'rst-class-option': ('restructuredtext', lambda P: f'def f():\n    r\'\'\'Doc.\n\n    .. note::\n       :class: {P}\n       :name: {P}\n\n       text\n    \'\'\'\n', False),
@@ -135,7 +139,7 @@ SINKS.update({
 })
 # the author wrote these values as link targets: what the URL does is theirs (statement), breaking out of the attribute is not
 AUTHOR_URL = {'rst-link-target', 'rst-target-def', 'rst-image-uri', 'rst-image-target', 'google-link-target', 'epy-url-target'}
-VALUE_SINKS = AUTHOR_URL | {'rst-image-alt', 'rst-class-option', 'numpy-image-alt', 'rst-code-language', 'rst-codeblock-language', 'rst-version-argument', 'rst-admonition-title', 'google-code-language', 'math-epy', 'math-rst', 'math-block-rst'}
+VALUE_SINKS = AUTHOR_URL | {'rst-image-alt', 'rst-image-alt-svg', 'rst-figure-alt-swf', 'google-image-alt-svg', 'rst-class-option', 'numpy-image-alt', 'rst-code-language', 'rst-codeblock-language', 'rst-version-argument', 'rst-admonition-title', 'google-code-language', 'math-epy', 'math-rst', 'math-block-rst'}
 
 # sinks that need their own runner
 SPECIAL = ['file-name', 'project-name', 'project-url', 'project-version', 'html-viewsource-base', 'intersphinx-free']
